@@ -22,10 +22,12 @@ KINDS = {
     "badser": ("badser", []),
     "falsy": ("ret1", []),
     "retfault": ("retfault", []),
+    "sysexit": ("sysexit", []),  # only sent to worlds with the default dispatch (see cases_single)
 }
 IDS = [i for i in B.IDS if i is not ABSENT]
 WORLDS = [(v, True, d, inst) for v in (2.0, 1.0) for d, inst in (
-    ("default", None), ("custom-ok", None), ("custom-raise", None), ("default", "dispatching"))]
+    ("default", None), ("custom-ok", None), ("custom-raise", None), ("default", "dispatching"))] + [(2, True, "default", None), (1, True, "custom-ok", None),
+                                       (2.0, True, "default+handlers", None), (1.0, True, "custom-ok+handlers", None)]
 
 
 def entry(kind, rid, form):
@@ -46,6 +48,8 @@ def cases_single(tier):
             for form in ("2.0", "1.0"):
                 body = B.dumps(entry(kind, rid, form))
                 for w in WORLDS:
+                    if kind == "sysexit" and (w[2].split("+")[0] != "default" or w[3] is not None):
+                        continue
                     yield (w, body)
     for t in B.TOPLEVEL:
         for w in WORLDS:
@@ -61,6 +65,7 @@ ALPHA = [
     entry("ok", ABSENT, "2.0"), entry("ok", None, "1.0"), entry("raise", "", "2.0"), entry("unknown", ABSENT, "2.0"),
     5, {}, entry("nomethod", 9, "2.0"), entry("badparams", "bp", "1.0"),
 ]
+SYSEXIT = [entry("sysexit", 3, "2.0"), entry("sysexit", "x", "1.0"), entry("sysexit", ABSENT, "2.0")]
 QUICK_ALPHA = [0, 1, 2, 3, 8, 10, 12, 13, 16, 17, 18, 20, 21, 22]
 
 
@@ -72,6 +77,13 @@ def cases_batch(tier):
             ws = WORLDS if n < 3 or tier == "thorough" else (WORLDS[0], WORLDS[3], WORLDS[5], WORLDS[6])
             for w in ws:
                 yield (w, body)
+    # a callable leaving through SystemExit, next to ordinary entries (default dispatch only)
+    for sx in SYSEXIT:
+        for i in QUICK_ALPHA:
+            for order in (0, 1):
+                pair = [sx, ALPHA[i]] if order else [ALPHA[i], sx]
+                for w in (WORLDS[0], WORLDS[4]):
+                    yield (w, B.dumps(pair))
     if tier == "thorough":
         for combo in itertools.product(idx, repeat=4):
             body = B.dumps([ALPHA[i] for i in combo])
@@ -88,13 +100,86 @@ def leg_batch(part, tier, shard, nshards):
     sc.body_leg(part, "batch", PROPS, cases_batch(tier), shard, nshards)
 
 
-LEGS = {"single": leg_single, "batch": leg_batch}
+# -- ids made of unusual code points, through the dispatcher and through the real HTTP handler (bytes on the wire) ----------
+
+EXOTIC = ['"\\ud83d"', '"\\udc00x"', '"\\u0000"', '"\\u2028"', '"\\ufeff"', '"\u00e9"', '"\\u00e9"', '"\U0001F600"', '"\\ud83d\\ude00"', '"\\u007f"', '"\\u0080"',
+          '["\\ud83d"]', '{"\\udfff": 1}', '"\u20ac\u00ff"', '"\\""', '"\\\\"', '1e2', '-0.0', '1E400'[:0] or '12345678901234567890']
+EX_KINDS = [('"pair"', "[1,2]"), ('"boom"', "[]"), ('"nosuch"', "[]"), ('"pair"', "[1]"), ('"ret1"', "[]")]
+
+
+def exotic_cases(tier):
+    for i in range(len(EXOTIC)):
+        for k in range(len(EX_KINDS)):
+            for form in (2, 1):
+                for w in (0, 4, 5, 7):
+                    yield (i, k, form, w, None)
+    for i in range(len(EXOTIC)):
+        for j in range(len(EXOTIC)):
+            yield (i, (i + j) % len(EX_KINDS), 2, 0, j)
+
+
+def exotic_body(i, k, form, j):
+    def one(idtext, kk):
+        m, p = EX_KINDS[kk]
+        return ('{"jsonrpc":"2.0","method":%s,"params":%s,"id":%s}' if form == 2 else '{"method":%s,"params":%s,"id":%s}') % (m, p, idtext)
+    if j is None:
+        return one(EXOTIC[i], k)
+    return "[%s,%s]" % (one(EXOTIC[i], k), one(EXOTIC[j], (k + 1) % len(EX_KINDS)))
+
+
+def check_exotic(case):
+    import json
+
+    from mc import gen, httpdrive
+    from mc.core import Out
+    from mc.ref import server as ref
+
+    i, k, form, wi, j = case
+    body = exotic_body(i, k, form, j)
+    w = sc.world(WORLDS[wi])
+    viols, label, in_domain = ref.evaluate_body(w, body)
+    out = Out(cls="exotic/" + label, nontrivial=in_domain)
+    for prop, sig, detail in viols:
+        if prop == "C03":
+            out.bad(sig, detail)
+    if not in_domain:
+        return out
+    req = json.loads(body)
+    want = [e["id"] for e in (req if isinstance(req, list) else [req])]
+    try:
+        status, headers, reply = httpdrive.post(w.d, body.encode("utf-8"))
+    except Exception as ex:
+        return out.bad("C03/http/handler-raises-%s" % type(ex).__name__, "POST %r: the HTTP handler raised %r, no response carries the id" % (body, ex))
+    try:
+        r = json.loads(reply.decode("utf-8"))
+        got = [e.get("id") for e in (r if isinstance(r, list) else [r])]
+    except Exception as ex:
+        return out.bad("C03/http/reply-unreadable", "POST %r: status %s reply %r (%r)" % (body, status, reply, ex))
+    if status != 200 or not gen.same(got, want):
+        out.bad("C03/http/ids-differ", "POST %r: status %s, response ids %r, request ids %r" % (body, status, got, want))
+    return out
+
+
+def leg_exotic(part, tier, shard, nshards):
+    from mc.core import drive
+    drive(part, "exotic-ids", exotic_cases(tier), shard, nshards, check_exotic)
+
+
+def leg_scale(part, tier, shard, nshards):
+    sc.body_leg(part, "scale", PROPS, sc.scale_cases(tier, [WORLDS[0], WORLDS[5], WORLDS[6], WORLDS[8]]), shard, nshards)
+
+
+LEGS = {"single": leg_single, "batch": leg_batch, "exotic-ids": leg_exotic, "scale": leg_scale}
 
 META = {
     "technique": "bounded-exhaustive enumeration of request entries and batch compositions against a reference server model (type-exact id comparison)",
     "rule": "single: 8 entry kinds x 18 id values (incl. absent) x {1.0,2.0} form; batch: every sequence of length <=3 over a 24-entry alphabet "
     "(thorough: plus length 4 over all 24 entries, one world each) whose ids cover every JSON type; x server version {1.0,2.0} x dispatch in {default, "
-    "custom returning, custom raising, instance with raising _dispatch}; every case is non-trivial (each yields at least one id/count obligation)",
+    "custom returning, custom raising, instance with raising _dispatch}, version given as integer, and configurations with serialisation handlers for "
+    "float/str/int (which rewrite result values and must leave ids alone); exotic-ids: 19 ids written with unusual code points (lone and paired surrogates, NUL, U+2028, BOM, raw and escaped non-ASCII, "
+    "quote, backslash, exponent and 20-digit numbers) x 5 outcomes x forms x 4 worlds and every pair of them in a batch, through the dispatcher and through "
+    "the real HTTP handler (bytes on the wire); scale: batches of 1001/1025/2500 (thorough 20000) entries "
+    "(calls, notifications, mixed, failing) and ids/parameters 25-150 (thorough 300) levels deep or that long; every case is non-trivial (each yields at least one id/count obligation)",
     "bounds": {"quick": {"batch_len": 3, "alphabet": 24}, "thorough": {"batch_len": 4, "alphabet": 24}},
     "assumptions": [
         "ids are plain JSON values (no __jsonclass__ descriptors inside ids)",
@@ -104,4 +189,6 @@ META = {
 
 
 def replay(case):
+    if case["leg"] == "exotic-ids":
+        return check_exotic(eval(case["case"], {"__builtins__": {}}, {})).viols
     return sc.replay_body(PROPS, case)
